@@ -485,13 +485,31 @@ func (vc *VC) load(st *State, addr *SV, t types.Type, hint string) *SV {
 	}
 	v := &SV{T: t, C: make([]string, len(l))}
 	for i, s := range l {
-		v.C[i] = vc.defS(s, sel2(st.H[s.heap()], addr.C[0], cellIdx(addr.C[1], i)), hint)
+		v.C[i] = vc.defS(s, vc.known(sel2(st.H[s.heap()], addr.C[0], cellIdx(addr.C[1], i))), hint)
 		if s == SRef {
 			vc.assume(app("bvult", v.C[i], st.H["next"]))
 		}
 	}
 	vc.constrainSV(v)
+	vc.notSelf(t, v.C, addr.C[0])
 	return v
+}
+
+// notSelf: a slice stored inside an object does not point into that same
+// object (standing heap-shape assumption, listed in the evidence).
+func (vc *VC) notSelf(t types.Type, c []string, holder string) {
+	switch u := t.Underlying().(type) {
+	case *types.Slice:
+		vc.note("standing: a slice stored in an object does not point into that same object")
+		vc.assume(not(eq(c[0], holder)))
+	case *types.Struct:
+		off := 0
+		for i := 0; i < u.NumFields(); i++ {
+			n := size(u.Field(i).Type())
+			vc.notSelf(u.Field(i).Type(), c[off:off+n], holder)
+			off += n
+		}
+	}
 }
 
 func (vc *VC) toInt64(v *SV) string {
@@ -625,15 +643,17 @@ func (vc *VC) binop(f *Frame, n *Node, in *ssa.BinOp) *SV {
 		a, b := x.C[0], y.C[0]
 		switch in.Op {
 		case token.ADD:
-			return mk(app("bvadd", a, b))
+			return mk(appf("bvadd", a, b))
 		case token.SUB:
-			return mk(app("bvsub", a, b))
+			if r, ok := vc.modIdiom(a, b); ok {
+				return mk(r)
+			}
+			return mk(appf("bvsub", a, b))
 		case token.MUL:
-			return mk(app("bvmul", a, b))
+			return mk(appf("bvmul", a, b))
 		case token.QUO, token.REM:
 			vc.oblige("div-zero", "integer divide by zero"+f.where(in), n.Reach, not(eq(b, bvLit(s.Bits(), 0))), "@nopanic")
-			op := map[bool]map[token.Token]string{true: {token.QUO: "bvsdiv", token.REM: "bvsrem"}, false: {token.QUO: "bvudiv", token.REM: "bvurem"}}[sg][in.Op]
-			return mk(app(op, a, b))
+			return mk(vc.divTerm(a, b, s.Bits(), sg, in.Op == token.REM))
 		case token.AND:
 			return mk(app("bvand", a, b))
 		case token.OR:
@@ -650,7 +670,7 @@ func (vc *VC) binop(f *Frame, n *Node, in *ssa.BinOp) *SV {
 			cnt := shiftCount(b, ys.Bits(), s.Bits())
 			switch {
 			case in.Op == token.SHL:
-				return mk(app("bvshl", a, cnt))
+				return mk(appf("bvshl", a, cnt))
 			case sg:
 				return mk(app("bvashr", a, cnt))
 			default:
@@ -974,10 +994,112 @@ func (vc *VC) panicAt(f *Frame, n *Node, in *ssa.Panic) {
 	vc.oblige("panic", "explicit panic reachable"+f.where(in), n.Reach, "false", "@nopanic")
 }
 
-// heapEqOld: every object that existed at entry has the same content in heap s.
+// heapEqOld: every object that existed at entry has the same content in heap s
+// (stated for the skolem object/cell of the VC).
 func (vc *VC) heapEqOld(old, cur *State, s Sort) string {
+	if vc.skR == "" {
+		vc.skR = vc.freshS(SRef, "sk_r")
+		vc.skI = vc.freshS(SBV64, "sk_i")
+	}
 	h := s.heap()
-	return fmt.Sprintf("(forall ((r!q (_ BitVec 32))) (=> (bvult r!q %s) (= (select %s r!q) (select %s r!q))))", old.H["next"], cur.H[h], old.H[h])
+	return implies(app("bvult", vc.skR, old.H["next"]), eq(sel2(cur.H[h], vc.skR, vc.skI), sel2(old.H[h], vc.skR, vc.skI)))
 }
 
 func (n needDecision) Error() string { return "need decision: " + n.key }
+
+// divTerm builds a / b or a % b. Division of a symbolic dividend by anything
+// but a literal power of two is abstracted: an uninterpreted function
+// constrained by the defining facts of truncated division for a >= 0, b > 0
+//     0 <= q <= a,  0 <= a - q*b < b
+// (all of them theorems of bit-vector arithmetic, so the abstraction only adds
+// behaviours: an unsat answer carries over to the exact operator). This keeps
+// 64-bit divider circuits out of the queries.
+func (vc *VC) divTerm(a, b string, bits int, signed, rem bool) string {
+	_, _, alit := litVal(a)
+	if alit || isPow2Lit(b) {
+		op := map[bool]map[bool]string{true: {false: "bvsdiv", true: "bvsrem"}, false: {false: "bvudiv", true: "bvurem"}}[signed][rem]
+		return appf(op, a, b)
+	}
+	sg := "u"
+	ge, gt, le, lt := "bvuge", "bvugt", "bvule", "bvult"
+	if signed {
+		sg = "s"
+		ge, gt, le, lt = "bvsge", "bvsgt", "bvsle", "bvslt"
+	}
+	dn := fmt.Sprintf("%sdiv%d", sg, bits)
+	rn := fmt.Sprintf("%srem%d", sg, bits)
+	S := fmt.Sprintf("(_ BitVec %d)", bits)
+	z := bvLit(bits, 0)
+	if !vc.eng.declared(vc, "uf:"+dn) {
+		nc := len(vc.hdrCover)
+		vc.emitHeader(fmt.Sprintf("(declare-fun %s (%s %s) %s)", dn, S, S, S))
+		vc.emitHeader(fmt.Sprintf("(declare-fun %s (%s %s) %s)", rn, S, S, S))
+		// cover queries use the exact operators (which satisfy the axioms)
+		ex := map[string]string{"sdiv": "bvsdiv", "srem": "bvsrem", "udiv": "bvudiv", "urem": "bvurem"}
+		vc.hdrCover = append(vc.hdrCover[:nc],
+			fmt.Sprintf("(define-fun %s ((a!q %s) (b!q %s)) %s (%s a!q b!q))", dn, S, S, S, ex[sg+"div"]),
+			fmt.Sprintf("(define-fun %s ((a!q %s) (b!q %s)) %s (%s a!q b!q))", rn, S, S, S, ex[sg+"rem"]))
+		vc.note("division abstraction: x/y and x%y with symbolic x are uninterpreted functions constrained by x == q*y + r, 0<=q<=x, 0<=r<y for x>=0, y>0 (theorems of machine arithmetic; sound over-approximation)")
+	}
+	facts := func(x, y string) string {
+		q, r := app(dn, x, y), app(rn, x, y)
+		// x == q*y + r holds for every x, y in two's complement truncated division
+		// (also for y == 0 under SMT-LIB's total semantics); the range facts need x >= 0, y > 0
+		return and(eq(x, app("bvadd", app("bvmul", q, y), r)), eq(app("bvsub", x, app("bvmul", q, y)), r),
+			implies(and(app(ge, x, z), app(gt, y, z)), and(app(ge, q, z), app(le, q, x), app(ge, r, z), app(lt, r, y))))
+	}
+	inScope := false
+	for _, bv := range vc.bound {
+		if strings.Contains(a, bv) || strings.Contains(b, bv) {
+			inScope = true
+		}
+	}
+	if inScope {
+		// the operands mention a quantified variable: fall back to the axiom schema
+		if !vc.eng.declared(vc, "ufax:"+dn) {
+			vc.emitHeaderAbs(fmt.Sprintf("(assert (forall ((a!q %s) (b!q %s)) (! %s :pattern ((%s a!q b!q)) :pattern ((%s a!q b!q)))))", S, S, facts("a!q", "b!q"), dn, rn))
+		}
+	} else if !vc.eng.declared(vc, "divinst:"+dn+a+"|"+b) {
+		vc.assume(facts(a, b))
+	}
+	if rem {
+		return app(rn, a, b)
+	}
+	return app(dn, a, b)
+}
+
+// modIdiom recognises  x - (x/y)*y  (the remainder idiom) when x/y was
+// abstracted to sdivN/udivN, and returns the matching remainder term; the
+// identity x - (x/y)*y == x%y holds for all x, y in two's complement
+// truncated division.
+func (vc *VC) modIdiom(a, b string) (string, bool) {
+	m := vc.expand(b)
+	if !strings.HasPrefix(m, "(bvmul ") {
+		return "", false
+	}
+	sx := parseSexp(m)
+	if len(sx.list) != 3 {
+		return "", false
+	}
+	for k := 1; k <= 2; k++ {
+		q := parseSexp(vc.expand(sx.list[k].String()))
+		y := sx.list[3-k].String()
+		if len(q.list) != 3 || len(q.list[0].atom) < 5 {
+			continue
+		}
+		fn := q.list[0].atom
+		same := func(u, v string) bool { return u == v || vc.expand(u) == vc.expand(v) }
+		if !same(q.list[1].String(), a) || !same(q.list[2].String(), y) {
+			continue
+		}
+		switch {
+		case fn == "bvsdiv":
+			return app("bvsrem", q.list[1].String(), q.list[2].String()), true
+		case fn == "bvudiv":
+			return app("bvurem", q.list[1].String(), q.list[2].String()), true
+		case strings.HasPrefix(fn, "sdiv") || strings.HasPrefix(fn, "udiv"):
+			return app(fn[:1]+"rem"+fn[4:], q.list[1].String(), q.list[2].String()), true
+		}
+	}
+	return "", false
+}
